@@ -93,3 +93,8 @@ chk("C09", "E4 history explorer",
     "Every program of a 20-program set is computed under every configuration of the optimizer/planner keys (quick: one-at-a-time plus all pairs; thorough: the full cross product) set at construction, at compute time, or both; and all histories of length <= 3 (4 on one pool in thorough) over build/compute/graph/persist/drop+gc of programs sharing subtrees and configuration changes are replayed from a reset state (registries and _LOWER_CACHE cleared); every compute must equal NumPy.",
     "Trusted: reset = clearing SingletonExpr registries and _LOWER_CACHE + gc.collect(); NumPy reference.",
     "DESIGN.md §4 C09")
+chk("C07", "E6 cross-process comparator",
+    "exhaustive enumeration of the bounded program space in several fresh interpreters (different PYTHONHASHSEED) with table diff, plus a cloudpickle round trip of every collection into another fresh interpreter",
+    "Every depth<=2 program is built in three fresh interpreters (hash seeds 0, 1, random) and twice within each: name, keys, sorted optimized graph keys, chunks, dtype and frisky output keys must agree everywhere; every collection is cloudpickled in one interpreter and loaded in the same and in another fresh interpreter: name, keys, chunks, dtype, frisky output keys unchanged and the value equals NumPy; an untokenizable source keeps its per-instance name.",
+    "Trusted: dask.tokenize for callables (module-level functions only); scratch under /verif/.scratch.",
+    "DESIGN.md §4 C07")
